@@ -400,35 +400,38 @@ Definition drop_impl (k : hkind) : option (loc -> M unit) :=
 
 (** count-neutral conversions: [conv c k] = kind of the result when conversion [c] applies to kind [k].
     The third component says whether the conversion inspects the block ([into_thin]'s assert). *)
+Definition conv_table : list (N * hkind * hkind) :=
+  [ (0, KArc, KRaw);            (* Arc::into_raw *)
+    (1, KRaw, KArc);            (* Arc::from_raw *)
+    (2, KArc, KOff);            (* Arc::into_raw_offset *)
+    (3, KOff, KArc);            (* Arc::from_raw_offset *)
+    (4, KArc, KUn1);            (* ArcUnion::from_first *)
+    (5, KArcB, KUn2);           (* ArcUnion::from_second *)
+    (7, KFat, KThin);           (* Arc::into_thin (the length assert is modelled in [step]) *)
+    (8, KThin, KFat);           (* Arc::from_thin *)
+    (9, KThin, KRawThin);       (* ThinArc::into_raw *)
+    (10, KRawThin, KThin);      (* ThinArc::from_raw *)
+    (11, KArc, KErased);        (* From<Arc<T>> for Arc<HeaderSlice<(),T>> *)
+    (12, KErased, KArc);        (* From<Arc<HeaderSlice<(),T>>> for Arc<T> *)
+    (13, KUniq, KArc);          (* UniqueArc::shareable *)
+    (13, KUS, KSlice);
+    (13, KUH, KAH);
+    (13, KMU, KMA);
+    (13, KMUS, KMAS);
+    (15, KArc, KDyn);           (* unsizing: from_raw(into_raw(a) as *const dyn Tr) / unsize::Coercion *)
+    (17, KSlice, KRawSlice);    (* Arc::into_raw on a slice *)
+    (18, KRawSlice, KSlice);    (* Arc::from_raw_slice *)
+    (19, KThin, KProt);         (* Arc::protected_from_thin *)
+    (20, KProt, KThin);         (* Arc::protected_into_thin *)
+    (21, KArc, KRaw);           (* arc-swap RefCnt::into_ptr for Arc *)
+    (22, KRaw, KArc);           (* arc-swap RefCnt::from_ptr *)
+    (23, KThin, KRawThin);      (* arc-swap RefCnt::into_ptr for ThinArc *)
+    (24, KRawThin, KThin) ].    (* arc-swap RefCnt::from_ptr for ThinArc *)
+
 Definition conv_target (c : N) (k : hkind) : option hkind :=
-  match c, k with
-  | 0, KArc => Some KRaw            (* Arc::into_raw *)
-  | 1, KRaw => Some KArc            (* Arc::from_raw *)
-  | 2, KArc => Some KOff            (* Arc::into_raw_offset *)
-  | 3, KOff => Some KArc            (* Arc::from_raw_offset *)
-  | 4, KArc => Some KUn1            (* ArcUnion::from_first *)
-  | 5, KArcB => Some KUn2           (* ArcUnion::from_second *)
-  | 7, KFat => Some KThin           (* Arc::into_thin (checked separately) *)
-  | 8, KThin => Some KFat           (* Arc::from_thin *)
-  | 9, KThin => Some KRawThin       (* ThinArc::into_raw *)
-  | 10, KRawThin => Some KThin      (* ThinArc::from_raw *)
-  | 11, KArc => Some KErased        (* From<Arc<T>> for Arc<HeaderSlice<(),T>> *)
-  | 12, KErased => Some KArc        (* From<Arc<HeaderSlice<(),T>>> for Arc<T> *)
-  | 13, KUniq => Some KArc          (* UniqueArc::shareable *)
-  | 13, KUS => Some KSlice
-  | 13, KUH => Some KAH
-  | 13, KMU => Some KMA
-  | 13, KMUS => Some KMAS
-  | 15, KArc => Some KDyn           (* unsizing: from_raw(into_raw(a) as *const dyn Tr) / unsize::Coercion *)
-  | 17, KSlice => Some KRawSlice    (* Arc::into_raw on a slice *)
-  | 18, KRawSlice => Some KSlice    (* Arc::from_raw_slice *)
-  | 19, KThin => Some KProt         (* Arc::protected_from_thin *)
-  | 20, KProt => Some KThin         (* Arc::protected_into_thin *)
-  | 21, KArc => Some KRaw           (* arc-swap RefCnt::into_ptr for Arc *)
-  | 22, KRaw => Some KArc           (* arc-swap RefCnt::from_ptr *)
-  | 23, KThin => Some KRawThin      (* arc-swap RefCnt::into_ptr for ThinArc *)
-  | 24, KRawThin => Some KThin
-  | _, _ => None
+  match find (fun e => (fst (fst e) =? c) && hkind_eqb (snd (fst e)) k) conv_table with
+  | Some e => Some (snd e)
+  | None => None
   end.
 
 (** [assume_init] family (conversion code 16): requires every cell written (documented precondition) *)
@@ -457,22 +460,22 @@ Definition can_mut (m : hmode) : bool := match m with MShared => false | _ => tr
 Definition can_consume (m : hmode) : bool := match m with MOwned => true | _ => false end.
 
 (** constructor table: code -> (kind, class, has header, initialised elements, fixed length (None = use n)) *)
+Definition new_table : list (N * (hkind * bcls * bool * bool * option nat)) :=
+  [ (0, (KArc, CS, false, true, Some 1%nat));     (* Arc::new *)
+    (1, (KUniq, CS, false, true, Some 1%nat));    (* UniqueArc::new *)
+    (2, (KArcB, CB, false, true, Some 1%nat));    (* Arc::<TokB>::new *)
+    (3, (KFat, CHL, true, true, None));           (* Arc::from_header_and_iter(HeaderWithLength::new(h, r), items) *)
+    (4, (KThin, CHL, true, true, None));          (* ThinArc::from_header_and_iter *)
+    (5, (KMU, CS, false, false, Some 1%nat));     (* UniqueArc::new_uninit *)
+    (6, (KMA, CS, false, false, Some 1%nat));     (* Arc::new_uninit *)
+    (7, (KMUS, CSl, false, false, None));         (* UniqueArc::new_uninit_slice *)
+    (8, (KMAS, CSl, false, false, None));         (* Arc::new_uninit_slice *)
+    (9, (KMUH, CHS, true, false, None));          (* UniqueArc::from_header_and_uninit_slice *)
+    (10, (KSlice, CSl, false, true, None));       (* Arc::<[Tok]>::from(Vec) *)
+    (11, (KAH, CHS, true, true, None)) ].         (* Arc::from_header_and_iter(HTok, items) *)
+
 Definition new_info (c : N) : option (hkind * bcls * bool * bool * option nat) :=
-  match c with
-  | 0 => Some (KArc, CS, false, true, Some 1%nat)     (* Arc::new *)
-  | 1 => Some (KUniq, CS, false, true, Some 1%nat)    (* UniqueArc::new *)
-  | 2 => Some (KArcB, CB, false, true, Some 1%nat)    (* Arc::<TokB>::new *)
-  | 3 => Some (KFat, CHL, true, true, None)           (* Arc::from_header_and_iter(HeaderWithLength::new(h, r), items) *)
-  | 4 => Some (KThin, CHL, true, true, None)          (* ThinArc::from_header_and_iter *)
-  | 5 => Some (KMU, CS, false, false, Some 1%nat)     (* UniqueArc::new_uninit *)
-  | 6 => Some (KMA, CS, false, false, Some 1%nat)     (* Arc::new_uninit *)
-  | 7 => Some (KMUS, CSl, false, false, None)         (* UniqueArc::new_uninit_slice *)
-  | 8 => Some (KMAS, CSl, false, false, None)         (* Arc::new_uninit_slice *)
-  | 9 => Some (KMUH, CHS, true, false, None)          (* UniqueArc::from_header_and_uninit_slice *)
-  | 10 => Some (KSlice, CSl, false, true, None)       (* Arc::<[Tok]>::from(Vec) *)
-  | 11 => Some (KAH, CHS, true, true, None)           (* Arc::from_header_and_iter(HTok, items) *)
-  | _ => None
-  end.
+  match find (fun e => fst e =? c) new_table with Some e => Some (snd e) | None => None end.
 
 Definition do_new (s : st) (c n r : N) : st * list N :=
   if 64 <? n then (s, skip_obs) else
@@ -480,21 +483,46 @@ Definition do_new (s : st) (c n r : N) : st * list N :=
   | None => (s, skip_obs)
   | Some (k, cls, hashdr, init, fixed) =>
     let len := match fixed with Some x => x | None => N.to_nat n end in
-    let rl := match c with 3 => r | _ => N.of_nat len end in
+    let rl := if c =? 3 then r else N.of_nat len in
     run_lib s (h <- (if hashdr then (t <- fresh ;; ret (Some t)) else ret None) ;;
                cs <- fresh_cells len init ;;
                alloc_block cls h rl cs)
             (fun l s' => (push_h s' (mkH k l MOwned), S_OK, [N.of_nat l]))
   end.
 
-(** end of a callback: what the crate does when the closure returns or unwinds *)
+(** the view a callback gets: code, kind of the borrowed handle -> (needs &mut, view kind, view mode) *)
+Definition begin_table : list (N * hkind * (bool * hkind * hmode)) :=
+  [ (0, KThin, (false, KFat, MShared));     (* ThinArc::with_arc: &Arc<HeaderSliceWithLengthUnchecked> *)
+    (1, KThin, (true, KProt, MMut));        (* ThinArc::with_arc_mut: &mut Arc<..Protected> *)
+    (2, KOff, (false, KArc, MShared));      (* OffsetArc::with_arc: &Arc<T> *)
+    (3, KArc, (false, KOff, MShared));      (* Arc::with_raw_offset_arc: &OffsetArc<T> *)
+    (4, KArc, (false, KArc, MShared));      (* a.borrow_arc().with_arc: &Arc<T> *)
+    (4, KOff, (false, KArc, MShared)) ].    (* o.borrow_arc().with_arc *)
+
+Definition begin_info (w : N) (k : hkind) : option (bool * hkind * hmode) :=
+  match find (fun e => (fst (fst e) =? w) && hkind_eqb (snd (fst e)) k) begin_table with
+  | Some e => Some (snd e)
+  | None => None
+  end.
+
+Definition hmode_eqb (a b : hmode) : bool :=
+  match a, b with MOwned, MOwned | MShared, MShared | MMut, MMut => true | _, _ => false end.
+
+(** end of a callback: what the crate does when the closure returns or unwinds.
+    with_arc_mut's DropGuard writes the (possibly replaced) pointer back: the ThinArc now targets
+    whatever the transient Arc targets.  Every other callback restores the borrowed handle as it was
+    (the transient was in ManuallyDrop: no count is released).  The entry is expected to still be the
+    view this frame installed (the check cannot fail from [init_st]; it spares the proofs a frame invariant). *)
 Definition exit_frame (s : st) (f : frame) : st :=
   match get_h s (f_h f) with
   | Some x =>
-    (* with_arc_mut's DropGuard writes the (possibly replaced) pointer back: the ThinArc now targets
-       whatever the transient Arc targets.  Every other callback restores the borrowed handle as it was
-       (the transient was in ManuallyDrop: no count is released). *)
-    set_h s (f_h f) (Some (mkH (f_prev_k f) (hl x) (f_prev_m f)))
+    match begin_info (f_w f) (f_prev_k f) with
+    | Some (_, vk, vm) =>
+      if hkind_eqb (hk x) vk && hmode_eqb (hm x) vm
+      then set_h s (f_h f) (Some (mkH (f_prev_k f) (hl x) (f_prev_m f)))
+      else s
+    | None => s
+    end
   | None => s
   end.
 
@@ -504,33 +532,21 @@ Fixpoint exit_all (s : st) (fs : list frame) : st :=
   | f :: r => exit_all (exit_frame s f) r
   end.
 
-(** the view a callback gets: code -> (required kind, needs &mut, view kind, view mode) *)
-Definition begin_info (w : N) (k : hkind) : option (bool * hkind * hmode) :=
-  match w, k with
-  | 0, KThin => Some (false, KFat, MShared)     (* ThinArc::with_arc: &Arc<HeaderSliceWithLengthUnchecked> *)
-  | 1, KThin => Some (true, KProt, MMut)        (* ThinArc::with_arc_mut: &mut Arc<..Protected> *)
-  | 2, KOff => Some (false, KArc, MShared)      (* OffsetArc::with_arc: &Arc<T> *)
-  | 3, KArc => Some (false, KOff, MShared)      (* Arc::with_raw_offset_arc: &OffsetArc<T> *)
-  | 4, KArc => Some (false, KArc, MShared)      (* a.borrow_arc().with_arc: &Arc<T> *)
-  | 4, KOff => Some (false, KArc, MShared)      (* o.borrow_arc().with_arc *)
-  | _, _ => None
-  end.
-
 (** count accessors: code -> applies to kind? and the library function *)
 Definition count_impl (acc : N) (k : hkind) : option (loc -> M N) :=
-  match acc with
-  | 0 => if is_arc_kind k then Some Arc_count else None                              (* Arc::count *)
-  | 1 => if is_arc_kind k then Some Arc_strong_count else
-           match k with
-           | KThin | KOff => Some Arc_strong_count                                   (* X::strong_count via with_arc *)
-           | KUn1 | KUn2 => Some ArcBorrow_strong_count                             (* ArcUnion::strong_count *)
-           | _ => None end
-  | 2 => match k with
-         | KArc | KOff | KArcB => Some ArcBorrow_strong_count                       (* borrow_arc().strong_count *)
-         | KUn1 | KUn2 => Some ArcBorrow_strong_count                               (* ArcUnionBorrow::strong_count(&u.borrow()) *)
-         | _ => None end
-  | _ => None
-  end.
+  if acc =? 0 then (if is_arc_kind k then Some Arc_count else None)                   (* Arc::count *)
+  else if acc =? 1 then
+    (if is_arc_kind k then Some Arc_strong_count else                                  (* Arc::strong_count *)
+       match k with
+       | KThin | KOff => Some Arc_strong_count                                         (* X::strong_count via with_arc *)
+       | KUn1 | KUn2 => Some ArcBorrow_strong_count                                    (* ArcUnion::strong_count *)
+       | _ => None end)
+  else if acc =? 2 then
+    match k with
+    | KArc | KOff | KArcB => Some ArcBorrow_strong_count                               (* borrow_arc().strong_count *)
+    | KUn1 | KUn2 => Some ArcBorrow_strong_count                                       (* ArcUnionBorrow::strong_count(&u.borrow()) *)
+    | _ => None end
+  else None.
 
 Definition declined (s : st) : st * N * list N := (s, S_DECLINED, []).
 
